@@ -1,1 +1,1016 @@
-//! C14 - not built yet
+//! C14 - layout trivia never changes results, and diagnostics track source positions.
+//!
+//! Two differential monitors around the real `rssl::compile`:
+//!
+//! 1. trivia monitor: P' = P + layout trivia (spaces, tabs, `/* */`, `// ..`, blank lines, `\`-newline) at token
+//!    boundaries found by the harness's OWN lexer (gen::c14_layout). compile(P') must have the verdict of
+//!    compile(P) and, when accepted, the identical Ok payload (source bytes, stages, metadata, pipeline state).
+//!    Never touched, as the property says: directly after `<`/`>`, between a macro's name and `(` in a #define;
+//!    and, by the rules of the language, no real newline inside a directive line, only blanks before a `#`.
+//! 2. position monitor: k physical lines of trivia inserted at a logical line start move every position the
+//!    diagnostic mentions on or after that line (same file) by exactly k and leave everything else - message,
+//!    file, column, echoed source line - unchanged. For generated programs with exactly one injected error the
+//!    diagnostic must additionally name the file and line (and, for a unique spelling, the column) of the construct.
+//!
+//! Recorded findings (known_findings.d/C14.json) are avoided by the generator and replayed from their witnesses;
+//! The macro invocation fix has been applied to the repository, so the two trivia avoidances are off; `C14_AVOID=1` switches them on again.
+
+use crate::corpus;
+use crate::gen::c14_layout::{self as lay, Injected, ProgGen};
+use crate::json::Json;
+use crate::report::{Ctx, Report, Tier};
+use crate::rng::{hash_str, Rng};
+use crate::rs::{self, Files, Mode, Opts, Outcome, Tgt};
+use crate::CheckDef;
+
+pub fn def() -> CheckDef {
+    CheckDef {
+        id: "C14",
+        salt: 0xC14,
+        rule: "bases: every RSSL snippet of the repository's unit tests (accepted and rejected, some re-encoded with CRLF), every tests/basic \
+               entry (pipelines: Mode::All and no_pipeline, DirectX/Vulkan/Metal), capsaicin and ffx_fsr2 entries (macro heavy, with their \
+               defines), generated programs with object-like/function-like/multi-line/pasting macros, conditionals, #undef, nested and \
+               repeated #include of in-memory files, and generated programs with exactly one injected error (28 kinds: type, parse, lexer, \
+               preprocessor, inside macro bodies/arguments; in the entry file or an included file; also on a last line without newline). \
+               trivia variants: insertions at boundaries of the harness's own lexer, single-kind or mixed, sparse to every boundary; \
+               never after `<`/`>`, never between name and `(` of a #define, no newline inside a directive line, only blanks before `#`. \
+               Generator avoidances for recorded findings: no newline between a macro name and the `(` of its invocation (KF-C14-1), \
+               none inside an empty macro argument list (KF-C14-2), no injected error on a token made by ## (KF-C14-3). \
+               position variants: k in 0..=50 physical lines (blank, blank with spaces, //, /* */, multi-line comments, spliced \
+               comment lines, CRLF) at a logical line start before / after the construct or in another file. \
+               evaluations = compiles of variants observed; distinct_nontrivial = distinct (variant text, configuration) pairs that \
+               differ from their base",
+        assumptions: &[
+            "token boundaries come from the harness lexer, which merges whenever unsure (numbers swallow letters, operator characters form one run); boundaries inside such runs are not exercised",
+            "diagnostics without any position (end-of-input parse errors, unbalanced #if/#endif, macro argument count) are counted, not judged",
+        ],
+        min_distinct: (10_000, 200_000),
+        deadline_s: (50.0, 540.0),
+        run,
+        replay,
+    }
+}
+
+// ------------------------------------------------------------------------------------------------
+// bases
+// ------------------------------------------------------------------------------------------------
+
+#[derive(Clone)]
+struct Base {
+    files: Files,
+    entry: String,
+    defines: Vec<(String, String)>,
+    origin: String,
+    configs: Vec<(Tgt, Mode)>,
+    /// include the files in witnesses (false for the big corpus sets, which are named by origin)
+    embed: bool,
+}
+
+impl Base {
+    fn opts(&self, c: usize) -> Opts {
+        let (t, m) = &self.configs[c % self.configs.len()];
+        let mut o = Opts::new(*t, m.clone());
+        o.defines = self.defines.clone();
+        o
+    }
+    fn macros(&self) -> Vec<String> {
+        let mut m: Vec<String> = self.defines.iter().map(|d| d.0.clone()).collect();
+        for f in &self.files.0 {
+            lay::defined_macros(&f.1, &mut m);
+        }
+        m
+    }
+    /// Indices of the files the entry file can reach through #include (over-approximation: conditionals are ignored)
+    fn reachable(&self) -> Vec<usize> {
+        let mut out: Vec<usize> = Vec::new();
+        let Some(e) = self.files.0.iter().position(|f| f.0 == self.entry) else { return out };
+        let mut todo = vec![e];
+        while let Some(i) = todo.pop() {
+            if out.contains(&i) {
+                continue;
+            }
+            out.push(i);
+            for name in lay::included_names(&self.files.0[i].1) {
+                let rel = rs::minipath_join(&self.files.0[i].0, &name);
+                let hit = self.files.0.iter().position(|f| Some(&f.0) == rel.as_ref()).or_else(|| self.files.0.iter().position(|f| f.0 == name));
+                if let Some(h) = hit {
+                    todo.push(h);
+                }
+            }
+        }
+        out.sort();
+        out
+    }
+    fn witness(&self, opts: &Opts) -> Json {
+        let mut w = Json::obj().set("origin", self.origin.as_str()).set("entry", self.entry.as_str()).set("opts", opts.to_json());
+        if self.embed {
+            w.put("files", self.files.to_json());
+        }
+        w
+    }
+}
+
+#[derive(Clone, Debug)]
+struct Ins {
+    file: usize,
+    offset: usize,
+    text: String,
+    label: String,
+    ctx: String,
+}
+
+fn apply(files: &Files, ins: &[Ins]) -> Files {
+    let mut out = files.clone();
+    for (fi, f) in out.0.iter_mut().enumerate() {
+        let mut mine: Vec<&Ins> = ins.iter().filter(|i| i.file == fi).collect();
+        if mine.is_empty() {
+            continue;
+        }
+        mine.sort_by_key(|i| i.offset);
+        let mut s = String::with_capacity(f.1.len() + mine.iter().map(|i| i.text.len()).sum::<usize>());
+        let mut at = 0;
+        for i in mine {
+            s.push_str(&f.1[at..i.offset]);
+            s.push_str(&i.text);
+            at = i.offset;
+        }
+        s.push_str(&f.1[at..]);
+        f.1 = s;
+    }
+    out
+}
+
+fn ins_json(files: &Files, ins: &[Ins]) -> Json {
+    Json::Arr(
+        ins.iter()
+            .map(|i| Json::obj().set("file", files.0[i.file].0.as_str()).set("offset", i.offset).set("text", i.text.as_str()).set("kind", i.label.as_str()).set("context", i.ctx.as_str()))
+            .collect(),
+    )
+}
+
+// ------------------------------------------------------------------------------------------------
+// trivia monitor
+// ------------------------------------------------------------------------------------------------
+
+/// Does `text` consist only of trivia that `allow` permits? (self check of the generator, and of replayed witnesses)
+fn fits(text: &str, allow: u8) -> bool {
+    let pieces = lay::lex(text);
+    let n = pieces.len();
+    if allow & lay::A_LINES_THEN_SPACE != 0 {
+        // whole lines of trivia, then blanks
+        let last_nl = pieces.iter().rposition(|p| p.kind == lay::PK::Newline);
+        for (i, p) in pieces.iter().enumerate() {
+            match p.kind {
+                lay::PK::Tok | lay::PK::OpenBlockComment => return false,
+                lay::PK::Space | lay::PK::Newline => {}
+                _ => {
+                    if last_nl.map(|l| i > l).unwrap_or(true) {
+                        return false;
+                    }
+                }
+            }
+        }
+        return true;
+    }
+    for (i, p) in pieces.iter().enumerate() {
+        let need = match p.kind {
+            lay::PK::Tok | lay::PK::OpenBlockComment => return false,
+            lay::PK::Space => lay::A_SPACE,
+            lay::PK::BlockComment => lay::A_BLOCK,
+            lay::PK::Splice => lay::A_SPLICE,
+            lay::PK::Newline => lay::A_NL,
+            lay::PK::LineComment => {
+                if i + 1 == n {
+                    lay::A_EOLC
+                } else {
+                    lay::A_NL
+                }
+            }
+        };
+        if allow & need == 0 {
+            return false;
+        }
+    }
+    true
+}
+
+/// How two outcomes differ, as far as the property is concerned
+fn difference(base: &Outcome, var: &Outcome) -> Option<(String, String)> {
+    match (base, var) {
+        (Outcome::Panic(_), _) | (Outcome::Budget { .. }, _) | (_, Outcome::Budget { .. }) => None,
+        (Outcome::Ok(_), Outcome::Ok(_)) => {
+            let (a, b) = (base.observable(), var.observable());
+            if a == b {
+                None
+            } else {
+                let mut la = a.lines();
+                let mut lb = b.lines();
+                loop {
+                    match (la.next(), lb.next()) {
+                        (Some(x), Some(y)) if x == y => continue,
+                        (x, y) => return Some(("payload".into(), format!("`{}` became `{}`", x.unwrap_or("<end>"), y.unwrap_or("<end>")))),
+                    }
+                }
+            }
+        }
+        (Outcome::Ok(_), Outcome::Diag(d)) => Some(("accept->reject".into(), d.lines().next().unwrap_or("").to_string())),
+        (Outcome::Diag(d), Outcome::Ok(_)) => Some(("reject->accept".into(), d.lines().next().unwrap_or("").to_string())),
+        (Outcome::Diag(_), Outcome::Diag(_)) => None,
+        (b, Outcome::Panic(c)) => Some((format!("{}->panic:{}", b.class(), c.signature()), c.location.clone())),
+    }
+}
+
+fn build_insertions(rng: &mut Rng, base: &Base, all_points: &[Vec<lay::Point>], report: &mut Report) -> Vec<Ins> {
+    for attempt in 0..3 {
+        let out = build_insertions_once(rng, base, all_points, attempt > 0, report);
+        if !out.is_empty() {
+            return out;
+        }
+    }
+    Vec::new()
+}
+
+fn build_insertions_once(rng: &mut Rng, _base: &Base, all_points: &[Vec<lay::Point>], dense: bool, report: &mut Report) -> Vec<Ins> {
+    let mut out = Vec::new();
+    let nl = if rng.chance(1, 6) { "\r\n" } else { "\n" };
+    let style = if dense { 5 + rng.below(4) } else { rng.below(10) };
+    // which files: all of them, or only one
+    let with_points: Vec<usize> = (0..all_points.len()).filter(|i| !all_points[*i].is_empty()).collect();
+    let only_file = if with_points.len() > 1 && rng.chance(1, 2) { Some(*rng.pick(&with_points)) } else { None };
+    let single_kind = if style < 5 { Some(*rng.pick(&lay::ALL_TK)) } else { None };
+    let (num, den) = match if dense { 3 } else { rng.below(4) } {
+        0 => (1, 20),
+        1 => (1, 4),
+        2 => (3, 4),
+        _ => (1, 1),
+    };
+    for (fi, pts) in all_points.iter().enumerate() {
+        if let Some(o) = only_file {
+            if o != fi {
+                continue;
+            }
+        }
+        let usable: Vec<usize> = (0..pts.len()).filter(|&i| pts[i].allow != 0).collect();
+        if usable.is_empty() {
+            continue;
+        }
+        let chosen: Vec<usize> = if style == 9 {
+            // one to three places only
+            (0..1 + rng.below(3)).map(|_| *rng.pick(&usable)).collect()
+        } else {
+            usable.iter().copied().filter(|_| rng.chance(num, den)).collect()
+        };
+        let mut seen: Vec<usize> = Vec::new();
+        for pi in chosen {
+            if seen.contains(&pi) && style == 9 {
+                continue;
+            }
+            seen.push(pi);
+            let p = &pts[pi];
+            if let Some((text, label)) = lay::trivia_for(rng, p, single_kind, nl) {
+                if !fits(&text, p.allow) {
+                    report.inconclusive(&format!("generator produced trivia `{:?}` that does not fit its place ({})", text, p.allow));
+                    continue;
+                }
+                let ctx = format!("{}:{}|{}", p.directive.as_ref().map(|d| format!("#{}", d)).unwrap_or_else(|| "code".into()), p.prev_class, p.next_class);
+                out.push(Ins { file: fi, offset: p.offset, text, label: label.to_string(), ctx });
+            }
+        }
+    }
+    out
+}
+
+/// Shrink a failing insertion set (same kind of difference), with a bound on compiles
+fn minimise(base: &Base, opts: &Opts, base_out: &Outcome, ins: Vec<Ins>, flip: &str, report: &mut Report) -> Vec<Ins> {
+    let mut cur = ins;
+    let mut budget = 160;
+    let mut chunk = (cur.len() / 2).max(1);
+    loop {
+        let mut removed = false;
+        let mut i = 0;
+        while i < cur.len() && cur.len() > 1 && budget > 0 {
+            let mut trial = cur.clone();
+            let end = (i + chunk).min(trial.len());
+            trial.drain(i..end);
+            if trial.is_empty() {
+                i += chunk;
+                continue;
+            }
+            budget -= 1;
+            let o = rs::compile(&apply(&base.files, &trial), &base.entry, opts);
+            report.evaluations += 1;
+            if matches!(difference(base_out, &o), Some((f, _)) if f == flip) {
+                cur = trial;
+                removed = true;
+            } else {
+                i += chunk;
+            }
+        }
+        if budget == 0 || cur.len() <= 1 {
+            break;
+        }
+        if chunk == 1 {
+            if !removed {
+                break;
+            }
+        } else {
+            chunk = (chunk / 2).max(1);
+        }
+    }
+    cur
+}
+
+fn judge_variant(base: &Base, opts: &Opts, base_out: &Outcome, ins: Vec<Ins>, report: &mut Report) {
+    let variant = apply(&base.files, &ins);
+    let var_out = rs::compile(&variant, &base.entry, opts);
+    report.evaluations += 1;
+    let mut h = hash_str(&opts.target.name()) ^ hash_str(&opts.mode.name()).rotate_left(7);
+    for f in &variant.0 {
+        h = h.rotate_left(13) ^ hash_str(&f.1);
+    }
+    report.distinct(h);
+    match difference(base_out, &var_out) {
+        None => {
+            report.count(&format!("trivia:{}->{}", base_out.class(), var_out.class()));
+            if let (Outcome::Diag(a), Outcome::Diag(b)) = (base_out, &var_out) {
+                // not part of the property (only the verdict of a rejected program is); recorded for the reader
+                if message_class(a) != message_class(b) {
+                    report.count("trivia:diagnostic->diagnostic:other-message");
+                }
+            }
+            if report.want_sample() && ins.len() <= 6 && h % 211 == 0 {
+                report.sample(base.witness(opts).set("monitor", "trivia").set("insertions", ins_json(&base.files, &ins)).set("result", var_out.brief()));
+            }
+        }
+        Some((flip, detail)) => {
+            // a base that does not reproduce itself (C07's business) cannot be compared
+            let again = rs::compile(&base.files, &base.entry, opts);
+            if again.observable() != base_out.observable() {
+                report.count("skipped:base-not-deterministic");
+                return;
+            }
+            let small = minimise(base, opts, base_out, ins, &flip, report);
+            let small_out = rs::compile(&apply(&base.files, &small), &base.entry, opts);
+            let detail = difference(base_out, &small_out).map(|d| d.1).unwrap_or(detail);
+            let signature = if small.len() == 1 {
+                format!("trivia:{}:{}:{}", flip, small[0].label, small[0].ctx)
+            } else {
+                format!("trivia:{}:several({}):{}:{}", flip, small.len().min(9), small[0].label, small[0].ctx)
+            };
+            let first = &small[0];
+            report.violation(
+                &signature,
+                &format!(
+                    "{} [{} {}]: inserting {:?} at byte {} of {} ({}) changes the result: {} -> {} ({})",
+                    base.origin,
+                    opts.target.name(),
+                    opts.mode.name(),
+                    first.text,
+                    first.offset,
+                    base.files.0[first.file].0,
+                    first.ctx,
+                    base_out.brief(),
+                    small_out.brief(),
+                    detail
+                ),
+                base.witness(opts)
+                    .set("monitor", "trivia")
+                    .set("insertions", ins_json(&base.files, &small))
+                    .set("observed", Json::obj().set("base", base_out.brief()).set("variant", small_out.brief()).set("difference", detail.as_str()).set("flip", flip.as_str())),
+            );
+        }
+    }
+}
+
+fn trivia_case(base: &Base, rng: &mut Rng, variants: u64, report: &mut Report) -> Vec<Option<Outcome>> {
+    let macros = base.macros();
+    let reachable = base.reachable();
+    let all_points: Vec<Vec<lay::Point>> = base.files.0.iter().enumerate().map(|(i, f)| if reachable.contains(&i) { lay::points(&f.1, &macros, std::env::var("C14_AVOID").is_ok()) } else { Vec::new() }).collect();
+    report.max("max:files-reached", reachable.len() as u64);
+    let mut base_outs: Vec<Option<Outcome>> = vec![None; base.configs.len()];
+    let class = base.origin.split(':').next().unwrap_or("").to_string();
+    for v in 0..variants {
+        let c = (v as usize) % base.configs.len();
+        let opts = base.opts(c);
+        if base_outs[c].is_none() {
+            let o = rs::compile(&base.files, &base.entry, &opts);
+            report.count(&format!("base:{}:{}", class, o.class()));
+            if let Outcome::Panic(p) = &o {
+                report.count(&format!("skipped:base-panic:{}", p.signature()));
+            }
+            base_outs[c] = Some(o);
+        }
+        let base_out = base_outs[c].clone().unwrap();
+        if matches!(base_out, Outcome::Panic(_) | Outcome::Budget { .. }) {
+            continue;
+        }
+        let ins = build_insertions(rng, base, &all_points, report);
+        if ins.is_empty() {
+            report.count("skipped:no-insertion");
+            continue;
+        }
+        for i in &ins {
+            report.count(&format!("inserted:{}", i.label));
+        }
+        report.max("max:insertions-per-variant", ins.len() as u64);
+        judge_variant(base, &opts, &base_out, ins, report);
+    }
+    base_outs
+}
+
+// ------------------------------------------------------------------------------------------------
+// position monitor
+// ------------------------------------------------------------------------------------------------
+
+#[derive(Clone, Debug, PartialEq)]
+struct Loc {
+    file: String,
+    line: usize,
+    col: usize,
+    severity: String,
+    message: String,
+}
+
+/// `file:line:column: error: message`
+fn parse_located(l: &str) -> Option<Loc> {
+    let (idx, sev) = match (l.find(": error: "), l.find(": note: ")) {
+        (Some(a), Some(b)) => {
+            if a < b {
+                (a, "error")
+            } else {
+                (b, "note")
+            }
+        }
+        (Some(a), None) => (a, "error"),
+        (None, Some(b)) => (b, "note"),
+        (None, None) => return None,
+    };
+    let head = &l[..idx];
+    let message = l[idx + sev.len() + 4..].to_string();
+    let mut parts = head.rsplitn(3, ':');
+    let col = parts.next()?.parse::<usize>().ok()?;
+    let line = parts.next()?.parse::<usize>().ok()?;
+    let file = parts.next()?.to_string();
+    if file.is_empty() {
+        return None;
+    }
+    Some(Loc { file, line, col, severity: sev.to_string(), message })
+}
+
+fn message_class(d: &str) -> String {
+    // the message of the first line without quoted names and numbers
+    let first = d.lines().next().unwrap_or("");
+    let msg = first.split("error: ").nth(1).unwrap_or(first);
+    let mut out = String::new();
+    let mut quoted = false;
+    for c in msg.chars() {
+        if c == '\'' || c == '`' {
+            quoted = !quoted;
+            if quoted {
+                out.push('_');
+            }
+            continue;
+        }
+        if quoted || c.is_ascii_digit() {
+            continue;
+        }
+        if c == '(' {
+            break;
+        }
+        out.push(c);
+    }
+    out.trim().chars().take(48).collect()
+}
+
+/// Every position in the diagnostic must follow the line map of "k lines inserted before line l0 of `file`"
+fn check_shift(base: &str, var: &str, file: &str, l0: usize, k: usize) -> Result<u64, String> {
+    let bl: Vec<&str> = base.lines().collect();
+    let vl: Vec<&str> = var.lines().collect();
+    if bl.len() != vl.len() {
+        return Err(format!("diagnostic has {} lines instead of {}", vl.len(), bl.len()));
+    }
+    let mut moved = 0;
+    for (b, v) in bl.iter().zip(&vl) {
+        match parse_located(b) {
+            Some(lb) => {
+                let Some(lv) = parse_located(v) else {
+                    return Err(format!("`{}` became `{}`", b, v));
+                };
+                let expect = if lb.file == file && lb.line >= l0 { lb.line + k } else { lb.line };
+                if lv.file != lb.file {
+                    return Err(format!("file name changed: `{}` became `{}`", b, v));
+                }
+                if lv.message != lb.message || lv.severity != lb.severity {
+                    return Err(format!("message changed: `{}` became `{}`", b, v));
+                }
+                if lv.col != lb.col {
+                    return Err(format!("column changed: `{}` became `{}`", b, v));
+                }
+                if lv.line != expect {
+                    return Err(format!("line should be {} (was {}, {} lines inserted before line {} of {}): `{}`", expect, lb.line, k, l0, file, v));
+                }
+                if expect != lb.line {
+                    moved += 1;
+                }
+            }
+            None => {
+                if b != v {
+                    return Err(format!("`{}` became `{}`", b, v));
+                }
+            }
+        }
+    }
+    Ok(moved)
+}
+
+fn pick_k(rng: &mut Rng) -> usize {
+    match rng.below(10) {
+        0 => 0,
+        1 => 1,
+        2 => 2,
+        3 => 3 + rng.below(3),
+        4 => 50,
+        5 => 49,
+        _ => rng.below(51),
+    }
+}
+
+struct Expect {
+    kind: String,
+    acceptable: Vec<(String, usize)>,
+    unique: Vec<String>,
+    may_be_unlocated: bool,
+}
+
+impl Expect {
+    fn to_json(&self) -> Json {
+        Json::obj()
+            .set("kind", self.kind.as_str())
+            .set("acceptable", Json::Arr(self.acceptable.iter().map(|(f, l)| Json::obj().set("file", f.as_str()).set("line", *l)).collect()))
+            .set("unique", Json::from(self.unique.clone()))
+            .set("may_be_unlocated", self.may_be_unlocated)
+    }
+    fn from_json(j: &Json) -> Expect {
+        Expect {
+            kind: j.get_str("kind").unwrap_or("replay").to_string(),
+            acceptable: j
+                .get("acceptable")
+                .and_then(|a| a.as_arr())
+                .map(|a| a.iter().map(|e| (e.get_str("file").unwrap_or("").to_string(), e.get("line").and_then(|l| l.as_i64()).unwrap_or(0) as usize)).collect())
+                .unwrap_or_default(),
+            unique: j.get("unique").and_then(|a| a.as_arr()).map(|a| a.iter().filter_map(|s| s.as_str().map(|s| s.to_string())).collect()).unwrap_or_default(),
+            may_be_unlocated: j.get("may_be_unlocated").and_then(|b| b.as_bool()).unwrap_or(false),
+        }
+    }
+}
+
+/// The diagnostic of a program with one injected error names the construct's file, line and (unique spelling) column.
+/// Returns false when there is nothing located to continue with.
+fn check_absolute(base: &Base, opts: &Opts, diag: &str, e: &Expect, report: &mut Report) -> bool {
+    let first = diag.lines().next().unwrap_or("");
+    let witness = |what: &str| base.witness(opts).set("monitor", "position").set("expect", e.to_json()).set("observed", Json::obj().set("diagnostic", diag).set("problem", what));
+    let Some(loc) = parse_located(first) else {
+        report.count(&format!("position:unlocated:{}:{}", e.kind, message_class(diag)));
+        if !e.may_be_unlocated {
+            report.violation(
+                &format!("position:unlocated:{}", e.kind),
+                &format!("{}: the diagnostic for the injected `{}` carries no position: {}", base.origin, e.kind, first),
+                witness("no position"),
+            );
+        }
+        return false;
+    };
+    report.count(&format!("position:located:{}", e.kind));
+    if !e.acceptable.iter().any(|(f, _)| *f == loc.file) {
+        report.violation(
+            &format!("position:wrong-file:{}:{}", e.kind, loc.file),
+            &format!("{}: the injected `{}` is in {} but the diagnostic names {}: {}", base.origin, e.kind, e.acceptable.last().map(|a| a.0.as_str()).unwrap_or(""), loc.file, first),
+            witness("wrong file"),
+        );
+        return true;
+    }
+    if !e.acceptable.iter().any(|(f, l)| *f == loc.file && *l == loc.line) {
+        report.violation(
+            &format!("position:wrong-line:{}", e.kind),
+            &format!("{}: the injected `{}` is on line {:?} but the diagnostic says {}:{}: {}", base.origin, e.kind, e.acceptable, loc.file, loc.line, first),
+            witness("wrong line"),
+        );
+        return true;
+    }
+    // column of a spelling that is unique on its line
+    if let Some(text) = base.files.0.iter().find(|f| f.0 == loc.file).map(|f| f.1.as_str()) {
+        if let Some(src) = text.split('\n').nth(loc.line - 1) {
+            let cols: Vec<usize> = e.unique.iter().filter_map(|u| src.find(u.as_str()).map(|p| p + 1)).collect();
+            if !cols.is_empty() {
+                if cols.contains(&loc.col) {
+                    report.count("position:column-checked");
+                    if src[..loc.col - 1].contains('\t') {
+                        report.count("position:column-checked-after-tab");
+                    }
+                } else {
+                    report.violation(
+                        &format!("position:wrong-column:{}", e.kind),
+                        &format!("{}: `{}` starts at column {:?} of line {} but the diagnostic says column {}: {}", base.origin, e.unique[0], cols, loc.line, loc.col, first),
+                        witness("wrong column"),
+                    );
+                }
+            }
+        }
+    }
+    true
+}
+
+/// Insert k lines at a logical line start of one file and compare the diagnostics
+fn shift_variant(base: &Base, opts: &Opts, base_diag: &str, fi: usize, offset: usize, text: &str, kind: &str, place: &str, report: &mut Report) {
+    let ftext = &base.files.0[fi].1;
+    let fname = &base.files.0[fi].0;
+    let l0 = 1 + ftext[..offset].bytes().filter(|b| *b == b'\n').count();
+    let k = text.bytes().filter(|b| *b == b'\n').count();
+    let ins = vec![Ins { file: fi, offset, text: text.to_string(), label: "lines".into(), ctx: String::new() }];
+    let variant = apply(&base.files, &ins);
+    let out = rs::compile(&variant, &base.entry, opts);
+    report.evaluations += 1;
+    report.distinct(hash_str(&variant.0[fi].1) ^ hash_str(opts.target.name()) ^ 0x9051);
+    let witness = |problem: &str, var: &str| {
+        base.witness(opts)
+            .set("monitor", "position")
+            .set("kind", kind)
+            .set("insertions", ins_json(&base.files, &ins))
+            .set("observed", Json::obj().set("base_diagnostic", base_diag).set("variant", var).set("problem", problem).set("k", k).set("before_line", l0))
+    };
+    match &out {
+        Outcome::Diag(d) => match check_shift(base_diag, d, fname, l0, k) {
+            Ok(moved) => {
+                report.count(&format!("position:shift-ok:{}", place));
+                report.count(&format!("position:k:{}", if k == 0 { "0".to_string() } else if k < 10 { "1-9".into() } else if k < 50 { "10-49".into() } else { "50".into() }));
+                if moved > 0 {
+                    report.count("position:shift-ok:moved");
+                }
+            }
+            Err(problem) => {
+                let what = if problem.starts_with("line should") {
+                    "line-shift"
+                } else if problem.starts_with("column") {
+                    "column"
+                } else if problem.starts_with("file name") {
+                    "file"
+                } else {
+                    "message"
+                };
+                report.violation(
+                    &format!("position:{}:{}:{}", what, kind, message_class(base_diag)),
+                    &format!("{} [{}]: {} lines inserted before line {} of {} ({}): {}", base.origin, opts.target.name(), k, l0, fname, place, problem),
+                    witness(&problem, d),
+                );
+            }
+        },
+        Outcome::Ok(_) => report.violation(
+            &format!("position:reject->accept:{}", kind),
+            &format!("{}: {} lines of trivia inserted before line {} of {} make the rejected program accepted", base.origin, k, l0, fname),
+            witness("accepted", "ok"),
+        ),
+        Outcome::Panic(c) => report.violation(
+            &format!("position:panic:{}", c.signature()),
+            &format!("{}: {} lines of trivia inserted before line {} of {} make the compiler panic at {}", base.origin, k, l0, fname, c.location),
+            witness("panic", &c.message),
+        ),
+        Outcome::Budget { .. } => report.count("skipped:budget"),
+    }
+}
+
+/// Generic part: any rejected program with a located diagnostic
+fn position_generic(base: &Base, opts: &Opts, diag: &str, rng: &mut Rng, variants: u64, kind: &str, construct: Option<(usize, usize)>, report: &mut Report) {
+    let first = parse_located(diag.lines().next().unwrap_or(""));
+    for _ in 0..variants {
+        // which file and where
+        let named = first.as_ref().and_then(|l| base.files.0.iter().position(|f| f.0 == l.file));
+        let (cfile, cline) = match construct {
+            Some(c) => c,
+            None => (named.unwrap_or(0), first.as_ref().map(|l| l.line).unwrap_or(1)),
+        };
+        let choice = rng.below(20);
+        let (fi, place) = if choice < 3 && base.files.0.len() > 1 {
+            let mut o = rng.below(base.files.0.len());
+            if o == cfile {
+                o = (o + 1) % base.files.0.len();
+            }
+            (o, "other-file")
+        } else if choice < 6 {
+            (cfile, "after")
+        } else {
+            (cfile, "before")
+        };
+        let text = &base.files.0[fi].1;
+        let starts = lay::line_starts(text);
+        let line_no = |off: usize| 1 + text[..off].bytes().filter(|b| *b == b'\n').count();
+        let candidates: Vec<usize> = match place {
+            "before" => starts.iter().copied().filter(|o| line_no(*o) <= cline).collect(),
+            "after" => starts.iter().copied().filter(|o| line_no(*o) > cline).collect(),
+            _ => starts.clone(),
+        };
+        let (candidates, place) = if candidates.is_empty() { (starts.iter().copied().filter(|o| line_no(*o) <= cline || fi != cfile).collect::<Vec<_>>(), "before") } else { (candidates, place) };
+        if candidates.is_empty() {
+            report.count("skipped:no-line-start");
+            continue;
+        }
+        let offset = if place == "before" && rng.chance(1, 2) { *candidates.last().unwrap() } else { *rng.pick(&candidates) };
+        let nl = if text.contains("\r\n") || rng.chance(1, 8) { "\r\n" } else { "\n" };
+        let k = pick_k(rng);
+        let lines = lay::k_lines(rng, k, nl);
+        shift_variant(base, opts, diag, fi, offset, &lines, kind, place, report);
+    }
+}
+
+fn position_injected(inj: &Injected, valid: &lay::GenProgram, rng: &mut Rng, variants: u64, report: &mut Report) {
+    let tgt = if rng.chance(1, 3) { Tgt::Msl } else { Tgt::Dx };
+    let opts = Opts::new(tgt, Mode::NoPipeline);
+    // the filler alone must be accepted, so that the injected construct is the only error
+    let v = rs::compile(&valid.to_files(), &valid.entry, &opts);
+    if !matches!(v, Outcome::Ok(_)) {
+        report.count(&format!("skipped:filler-not-accepted:{}", v.class()));
+        if report.notes.len() < 5 {
+            report.notes.push(format!("generated filler program not accepted: {}", v.brief()));
+        }
+        return;
+    }
+    let base = Base {
+        files: inj.program.to_files(),
+        entry: inj.program.entry.clone(),
+        defines: Vec::new(),
+        origin: format!("injected:{}", inj.kind),
+        configs: vec![(tgt, Mode::NoPipeline)],
+        embed: true,
+    };
+    let out = rs::compile(&base.files, &base.entry, &opts);
+    report.evaluations += 1;
+    let diag = match &out {
+        Outcome::Diag(d) => d.clone(),
+        other => {
+            report.count(&format!("skipped:injected-{}:{}", other.class(), inj.kind));
+            return;
+        }
+    };
+    let e = Expect {
+        kind: inj.kind.to_string(),
+        acceptable: inj.acceptable.clone(),
+        unique: inj.unique.clone(),
+        may_be_unlocated: inj.may_be_unlocated,
+    };
+    check_absolute(&base, &opts, &diag, &e, report);
+    let cfile = base.files.0.iter().position(|f| f.0 == inj.construct.0).unwrap_or(0);
+    if !inj.program.files[cfile].final_newline {
+        report.count("position:construct-file-without-final-newline");
+    }
+    if inj.program.files[cfile].crlf {
+        report.count("position:construct-file-crlf");
+    }
+    if inj.construct.0 != inj.program.entry {
+        report.count("position:construct-in-included-file");
+    }
+    position_generic(&base, &opts, &diag, rng, variants, inj.kind, Some((cfile, inj.construct.1)), report);
+}
+
+// ------------------------------------------------------------------------------------------------
+// workload
+// ------------------------------------------------------------------------------------------------
+
+enum Case {
+    Snippet(usize, bool),
+    Corpus(usize, usize),
+    Generated(u64),
+    Injected(u64),
+}
+
+fn to_crlf(s: &str) -> String {
+    s.replace("\r\n", "\n").replace('\n', "\r\n")
+}
+
+fn run(ctx: &Ctx) -> Report {
+    let sets = corpus::load();
+    let snippets = corpus::test_snippets();
+    let quick = ctx.tier == Tier::Quick;
+    let mut cases: Vec<Case> = Vec::new();
+    // big macro-heavy corpus entries first: they are the slowest cases
+    for (si, s) in sets.iter().enumerate() {
+        for ei in 0..s.entries.len() {
+            cases.push(Case::Corpus(si, ei));
+        }
+    }
+    let n_gen = ctx.tier.pick(800, 8_000);
+    let n_inj = ctx.tier.pick(1000, 10_000);
+    // interleave so that a deadline cuts all classes evenly
+    let mut s = 0usize;
+    let mut g = 0u64;
+    let mut j = 0u64;
+    while s < snippets.len() || g < n_gen || j < n_inj {
+        for _ in 0..3 {
+            if s < snippets.len() {
+                cases.push(Case::Snippet(s, false));
+                if s % 6 == 0 {
+                    cases.push(Case::Snippet(s, true));
+                }
+                s += 1;
+            }
+        }
+        if g < n_gen {
+            cases.push(Case::Generated(g));
+            g += 1;
+        }
+        if j < n_inj {
+            cases.push(Case::Injected(j));
+            j += 1;
+        }
+        if quick && s >= snippets.len() && g >= n_gen && j >= n_inj {
+            break;
+        }
+    }
+    let seed = ctx.seed;
+    let tier = ctx.tier;
+    let mut report = crate::par::run_cases(ctx, cases.len() as u64, |index, report| {
+        let mut rng = Rng::for_case(seed, 0x1401, index);
+        match &cases[index as usize] {
+            Case::Snippet(i, crlf) => {
+                let text = if *crlf { to_crlf(&snippets[*i]) } else { snippets[*i].clone() };
+                let mut configs = vec![(Tgt::Dx, Mode::NoPipeline), (Tgt::Msl, Mode::NoPipeline)];
+                if tier == Tier::Thorough {
+                    configs.push((Tgt::Vk, Mode::NoPipeline));
+                }
+                let base = Base {
+                    files: Files::single("main.rssl", &text),
+                    entry: "main.rssl".into(),
+                    defines: Vec::new(),
+                    origin: format!("unit-test-snippet{}:{}", if *crlf { "-crlf" } else { "" }, i),
+                    configs,
+                    embed: true,
+                };
+                let outs = trivia_case(&base, &mut rng, tier.pick(6, 30), report);
+                if let Some(Some(Outcome::Diag(d))) = outs.first() {
+                    if parse_located(d.lines().next().unwrap_or("")).is_some() {
+                        report.count("position:generic-base:snippet");
+                        position_generic(&base, &base.opts(0), d, &mut rng, tier.pick(2, 10), "snippet", None, report);
+                    } else {
+                        report.count(&format!("position:unlocated:snippet:{}", message_class(d)));
+                    }
+                }
+            }
+            Case::Corpus(si, ei) => {
+                let s = &sets[*si];
+                let configs = if s.has_pipelines {
+                    vec![(Tgt::Dx, Mode::All), (Tgt::Msl, Mode::All), (Tgt::Dx, Mode::NoPipeline), (Tgt::Vk, Mode::All), (Tgt::VkBa, Mode::All)]
+                } else {
+                    vec![(Tgt::Dx, Mode::NoPipeline), (Tgt::Msl, Mode::NoPipeline)]
+                };
+                // only the entry file and what it can reach matters, but the whole set is the include universe
+                let base = Base {
+                    files: s.files.clone(),
+                    entry: s.entries[*ei].clone(),
+                    defines: s.defines.clone(),
+                    origin: format!("corpus:{}:{}", s.name, s.entries[*ei]),
+                    configs,
+                    embed: s.files.total_len() <= 64 * 1024,
+                };
+                let variants = if s.has_pipelines { tier.pick(20, 200) } else { tier.pick(2, 12) };
+                trivia_case(&base, &mut rng, variants, report);
+            }
+            Case::Generated(i) => {
+                let mut prng = Rng::for_case(seed, 0x1402, *i);
+                let p = ProgGen::generate(&mut prng);
+                let base = Base {
+                    files: p.to_files(),
+                    entry: p.entry.clone(),
+                    defines: Vec::new(),
+                    origin: format!("generated:{}", i),
+                    configs: vec![(Tgt::Dx, Mode::NoPipeline), (Tgt::Msl, Mode::NoPipeline), (Tgt::Vk, Mode::NoPipeline)],
+                    embed: true,
+                };
+                let outs = trivia_case(&base, &mut rng, tier.pick(12, 40), report);
+                if let Some(Some(o)) = outs.first() {
+                    if matches!(o, Outcome::Ok(_)) {
+                        for f in &p.features {
+                            report.count(&format!("feature:{}", f));
+                        }
+                    } else {
+                        report.count(&format!("generated-not-accepted:{}", o.class()));
+                        if report.notes.len() < 5 {
+                            report.notes.push(format!("generated program {} not accepted: {}", i, o.brief()));
+                        }
+                    }
+                }
+            }
+            Case::Injected(i) => {
+                let mut prng = Rng::for_case(seed, 0x1403, *i);
+                let kind = lay::ERROR_KINDS[(*i as usize) % lay::ERROR_KINDS.len()];
+                let valid = ProgGen::generate(&mut prng.clone());
+                let inj = Injected::generate(&mut prng, kind);
+                position_injected(&inj, &valid, &mut rng, tier.pick(6, 16), report);
+                // rejected programs: the verdict must survive trivia
+                let base = Base {
+                    files: inj.program.to_files(),
+                    entry: inj.program.entry.clone(),
+                    defines: Vec::new(),
+                    origin: format!("injected:{}:{}", kind, i),
+                    configs: vec![(Tgt::Dx, Mode::NoPipeline)],
+                    embed: true,
+                };
+                trivia_case(&base, &mut rng, tier.pick(3, 8), report);
+            }
+        }
+    });
+    if snippets.len() < 50 {
+        report.inconclusive("could not read the unit-test snippets from /repo");
+    }
+    if sets.iter().all(|s| s.entries.is_empty()) {
+        report.inconclusive("could not read the tests/ corpus from /repo");
+    }
+    report
+}
+
+// ------------------------------------------------------------------------------------------------
+// replay
+// ------------------------------------------------------------------------------------------------
+
+fn replay(_ctx: &Ctx, witness: &Json) -> Report {
+    let mut report = Report::new();
+    let origin = witness.get_str("origin").unwrap_or("replay").to_string();
+    let entry = witness.get_str("entry").unwrap_or("main.rssl").to_string();
+    let opts = witness.get("opts").map(Opts::from_json).unwrap_or_else(|| Opts::new(Tgt::Dx, Mode::NoPipeline));
+    let files = match witness.get("files") {
+        Some(f) => Files::from_json(f),
+        None => {
+            let set = origin.split(':').nth(1).unwrap_or("");
+            match corpus::load().into_iter().find(|s| s.name == set) {
+                Some(s) => s.files,
+                None => {
+                    report.inconclusive("witness has no files and names no corpus set");
+                    return report;
+                }
+            }
+        }
+    };
+    let base = Base {
+        files,
+        entry,
+        defines: opts.defines.clone(),
+        origin,
+        configs: vec![(opts.target, opts.mode.clone())],
+        embed: true,
+    };
+    let mut ins: Vec<Ins> = Vec::new();
+    if let Some(list) = witness.get("insertions").and_then(|i| i.as_arr()) {
+        for i in list {
+            let name = i.get_str("file").unwrap_or("");
+            let Some(fi) = base.files.0.iter().position(|f| f.0 == name) else {
+                report.inconclusive("witness insertion names an unknown file");
+                return report;
+            };
+            ins.push(Ins {
+                file: fi,
+                offset: i.get("offset").and_then(|o| o.as_i64()).unwrap_or(0) as usize,
+                text: i.get_str("text").unwrap_or("").to_string(),
+                label: i.get_str("kind").unwrap_or("replayed").to_string(),
+                ctx: String::new(),
+            });
+        }
+    }
+    let base_out = rs::compile(&base.files, &base.entry, &opts);
+    report.evaluations += 1;
+    match witness.get_str("monitor").unwrap_or("trivia") {
+        "trivia" => {
+            // the insertions must be legal under the rules of the property itself (generator avoidances switched off)
+            let macros = base.macros();
+            for i in ins.iter_mut() {
+                let pts = lay::points(&base.files.0[i.file].1, &macros, false);
+                let Some(p) = pts.iter().find(|p| p.offset == i.offset && fits(&i.text, p.allow)) else {
+                    report.inconclusive("witness insertion is not layout trivia at a place the property allows");
+                    return report;
+                };
+                i.ctx = format!("{}:{}|{}", p.directive.as_ref().map(|d| format!("#{}", d)).unwrap_or_else(|| "code".into()), p.prev_class, p.next_class);
+            }
+            if ins.is_empty() {
+                report.inconclusive("witness has no insertions");
+                return report;
+            }
+            judge_variant(&base, &opts, &base_out, ins, &mut report);
+        }
+        _ => {
+            let Outcome::Diag(diag) = &base_out else {
+                report.count("replay:base-not-rejected");
+                return report;
+            };
+            let kind = witness.get_str("kind").or_else(|| witness.get("expect").and_then(|e| e.get_str("kind"))).unwrap_or("snippet").to_string();
+            if let Some(e) = witness.get("expect") {
+                check_absolute(&base, &opts, diag, &Expect::from_json(e), &mut report);
+            }
+            for i in &ins {
+                // whole lines at a logical line start
+                let text = &base.files.0[i.file].1;
+                if !lay::line_starts(text).contains(&i.offset) || !fits(&i.text, lay::A_LINES_THEN_SPACE) || !(i.text.is_empty() || i.text.ends_with('\n')) {
+                    report.inconclusive("witness insertion is not whole lines of trivia at a line start");
+                    return report;
+                }
+                shift_variant(&base, &opts, diag, i.file, i.offset, &i.text, &kind, "replay", &mut report);
+            }
+        }
+    }
+    report
+}
